@@ -184,9 +184,10 @@ static std::string make_line2(Rng &rng, const Opts &o, bool bmat) {
     h.s = pick_s(rng, h.kind);
     RelaxPrm rp; rp.rk = rng.range(0, 4); rp.damping = Q::frac(rng.range(2, 7), 8); rp.degree = rng.range(1, o.thorough() ? 3 : 2); rp.higher = Q(1); rp.lower = Q::frac(1, 32); rp.scale = rng.coin();
     long smax = o.thorough() ? 3 : 2;
-    Tail t; t.npre = rng.range(1, smax); t.npost = rng.coin(2, 3) ? t.npre : rng.range(1, smax); t.ncycle = rng.range(1, 2); t.pre_cycles = rng.coin(1, 6) ? 0 : rng.range(1, 2);
+    // zero pre- or post-smoothing steps are valid configurations (npre = 0 / npost = 0): one case in five each
+    Tail t; t.npre = rng.coin(1, 5) ? 0 : rng.range(1, smax); t.npost = rng.coin(2, 3) ? t.npre : (rng.coin(1, 5) ? 0 : rng.range(1, smax)); t.ncycle = rng.range(1, 2); t.pre_cycles = rng.coin(1, 6) ? 0 : rng.range(1, 2);
     if (t.ncycle == 2 && t.pre_cycles == 2) t.pre_cycles = 1;     // keep the rational growth bounded
-    if (bmat) { t.npost = t.npre; t.pre_cycles = rng.range(1, 2); }
+    if (bmat) { if (t.npre == 0) t.npre = 1; t.npost = t.npre; t.pre_cycles = rng.range(1, 2); }   // SPD / contraction clause: smoothing steps >= 1
     if (bmat && rng.coin(1, 6)) {
         // deep hierarchies: 2D grid with random weights, plain aggregation down to one unknown (4+ levels), V-cycle with one sweep
         long m = rng.range(6, o.thorough() ? 8 : 7); h.kind = 0; h.A = gen_spd(rng, m * m, 1); h.ce = rng.range(1, 2); h.dc = 1; h.ml = 10; h.s = pick_s(rng, 0);
